@@ -553,6 +553,7 @@ func init() {
 		checkSeekTables(p, r)
 		checkReadWidth(p, r)
 		checkAlignFree(p, r)
+		checkSingleDecoder(p, r)
 		// the answer of a seek is a function of the table and the key only: nothing on
 		// the read path may write state a later seek on the same Reader could observe
 		copyStateless(p, r, "SEEK-STATELESS", "a seek can depend on the Reader's history", "shared *Merged", "Merged / ")
@@ -572,6 +573,10 @@ func init() {
 		checkKeyBytewise(p, r)
 		// a scan returns what the bytes say, whatever was read through the same Reader before
 		checkReadWidth(p, r)
+		{
+			cg := buildCallGraph(p)
+			checkInflateSlack(p, r, cg.reachable(hostileRoots(p, cg)))
+		}
 		copyStateless(p, r, "SCAN-STATELESS", "what a scan returns can depend on earlier reads through the same Reader", "shared *Merged", "Merged / ")
 		r.Engines = []string{"pathsim", "dtable", "wireseq", "bounds", "effects"}
 		r.Explanation = "Structural necessary conditions of the round trip, decided on every path by abstract simulation: a record whose payload fields are all empty (a deletion) reaches the block writer with its payload untouched (the log message normalisation must not turn a tombstone into a live entry); IsDeletion is true exactly when every payload field is empty (all valuations of the field-emptiness atoms); AddRef writes only update indices inside the declared limits; Writer.add lets a record reach the block writer only if its key is greater than the previous key; a restart point is recorded only while the 16-bit restart count has room and only for keys stored without prefix; for ref, log and index records and every value type the ordered wire events (varint / bytes / string / u16, each tied to the record field it is read from or stored to) written by encode on the paths of the writer's documented domain equal those read by decode; the key codec's shift and mask constants agree between the encoder and both decoders; the log key codec pair uses the same 9-byte reversed big-endian suffix. The update-index delta is decided under C11, conformance of the sequences with the format under C14."
